@@ -111,7 +111,11 @@ def gen(ctx, rng, n):
         if routine in WEIGHTED:
             tol = (1 if tol > 0 else -1) * 10.0 ** (-rng.uniform(3, 9))
         cases.append({"routine": routine, "cx": cx, "a": fp(a), "b": fp(b), "tol": fp(tol), "n": nrom if routine == "romberg" else 40,
-                      "budget": 2000000, "keep": 64, "f": f, "mustok": must, "work": routine == "simpson" and f["k"] != "poly"})
+                      "budget": 2000000, "keep": 6000 if routine == "simpson" and not cx else 64, "f": f, "mustok": must,
+                      "work": routine == "simpson" and f["k"] != "poly"})
+        if routine == "simpson" and rng.random() < 0.1:
+            cases[-1]["n"] = rng.choice([2, 3, 5])         # shallow depth limits: the depth error path
+            cases[-1]["mustok"] = False
     return cases
 
 
@@ -125,6 +129,19 @@ def judge(ctx, cases):
     rows = fncommon.observe(ctx, "quad", cases, "quad", nproc=8)
     slim = [dict(r, evals=r["evals"][:2]) for r in rows]
     viols = fncommon.validate(ctx, slim, "Val_C09", "quad", nshards=12, env={"VH_KQ": KQ}, timeout=1500)
+    # design level: every abscissa, every accept/split verdict and the returned area of every real-valued
+    # integrate_simpson run against SimpsonStack's own stack actions over doubles (drift, not a violation)
+    keys = ("id", "routine", "cx", "a", "b", "tol", "n", "evals", "calls", "ret", "val")
+    srows = [{k: r[k] for k in keys} for r in rows if r["routine"] == "simpson" and not r["cx"] and r["calls"] <= len(r["evals"])]
+    ndrift = len(ctx.drift)
+    for nmax in sorted(set(r["n"] for r in srows)):
+        grp = [r for r in srows if r["n"] == nmax]
+        fncommon.validate(ctx, grp, "Trace_Simpson", "simp%d" % nmax, nshards=6, env={"VH_NMAX": nmax}, timeout=1500)
+        ctx.traces -= len(grp)          # counted once, above
+    st = [x for x in ctx.notes.pop("_stat", []) if x and x[0] == "simpson_runs_explained"]
+    ctx.notes["simpson_runs_validated_against_design"] = ctx.notes.get("simpson_runs_validated_against_design", 0) + len(srows)
+    ctx.notes["simpson_runs_explained_bit_for_bit"] = ctx.notes.get("simpson_runs_explained_bit_for_bit", 0) + sum(x[1] for x in st)
+    ctx.notes["simpson_runs_drifted"] = ctx.notes.get("simpson_runs_drifted", 0) + (len(ctx.drift) - ndrift)
     for c, r in zip(cases, rows):
         ctx.count_case(brief(c), r["ret"] == "ok" and r["calls"] >= 7)
     for c, r in list(zip(cases, rows))[:: max(1, len(cases) // 3)][:3]:
@@ -155,5 +172,5 @@ def run(ctx):
 
 
 def replay(ctx, body):
-    c = dict(body["case"], budget=2000000, keep=64)
+    c = dict(body["case"], budget=2000000, keep=6000 if body["case"].get("routine") == "simpson" else 64)
     judge(ctx, [c, dict(c)])
